@@ -2,7 +2,7 @@
 C04 — NACK responder retransmits exactly what was sent.
 Only property theorems live here; models in Model/RtpBuffer.lean, Model/RefMachine.lean, specs in
 Spec/RtpBuffer.lean, Spec/Rtx.lean, helper lemmas in Proofs/{RtpBuffer,RtpBufferInv,Responder,
-ResponderClear,ResponderClose,AddConserve,SpecChar,RefMachine}.lean.  The model is the code *after* the two fixes (F-04, F-05).
+ResponderClear,ResponderClose,AddConserve,SpecChar,RefMachine}.lean.  The model is the code *after* the fixes F-04, F-05 and (made under C11) F-06.
 -/
 import Interceptor.Proofs.ResponderClear
 import Interceptor.Proofs.RefMachine
@@ -62,28 +62,34 @@ example : ¬ sub16 20 4 < 8 := by decide
 /-! ### 2. one retransmission per request, in request order, nothing for unbound streams -/
 
 /-- ★ T2 `resend_exact`: after any history of bind / write / unbind / close operations on a fresh
-responder, a NACK for a bound SSRC writes exactly `[retransmittable x | x ∈ expand nack,
-retransmittable x ≠ none]` to that stream's writer — one per request, in request order, where
-`retransmittable` is the spec of what was written to the stream since it was bound — leaves
-the state unchanged, and a NACK for an SSRC that is not bound writes nothing. -/
+responder, a NACK leaves the state unchanged and
+* if the responder has been closed: writes nothing (also for streams bound after `Close`);
+* otherwise, for a bound SSRC: writes exactly `[retransmittable x | x ∈ expand nack,
+  retransmittable x ≠ none]` to that stream's writer — one per request, in request order, where
+  `retransmittable` is the spec of what was written to the stream since it was bound;
+* for an SSRC that is not bound: writes nothing. -/
 theorem resend_exact (n k : Nat) (r0 : Resp) (h0 : Resp.new n k = some r0) (ops : List Op)
     (hok : ∀ op ∈ ops, op.ok) (ssrc : Nat) (pairs : List (Nat × Nat)) (hp : ∀ pr ∈ pairs, pr.1 < 65536) :
     let r := (runOps r0 (fun _ => emptySpec) ops).1
     let sp := (runOps r0 (fun _ => emptySpec) ops).2
     r.hold = false →
     r.nack ssrc pairs =
-      (r, match lookupBound r.bound ssrc with
-          | none => []
-          | some w => ((expand pairs).filterMap ((sp w).get Pkt.seq)).map (fun p => (w, p))) := by
+      (r, if r.closed = true then []
+          else match lookupBound r.bound ssrc with
+            | none => []
+            | some w => ((expand pairs).filterMap ((sp w).get Pkt.seq)).map (fun p => (w, p))) := by
   intro r sp hh
   have hi : RespInv r sp := respInv_run (respInv_new h0) ops hok
   unfold Resp.nack
-  cases hl : lookupBound r.bound ssrc with
-  | none => rfl
-  | some w =>
-    simp only [hh]
-    rw [resendAll_eq hi w _ (expand_lt pairs hp)]
-    rfl
+  by_cases hc : r.closed = true
+  · rw [if_pos hc, if_pos hc]
+  · rw [if_neg hc, if_neg hc]
+    cases hl : lookupBound r.bound ssrc with
+    | none => rfl
+    | some w =>
+      simp only [hh]
+      rw [resendAll_eq hi w _ (expand_lt pairs hp)]
+      rfl
 
 example : ∃ r, Resp.new 8 0 = some r := ⟨_, rfl⟩
 
@@ -207,19 +213,47 @@ theorem unbind_empties (r : Resp) (ssrc w : Nat) (st : Stream) (b : Buf Pkt)
       cases hb
       simp [clear, slot_replicate]
 
-/-- T5 for `Close`: no SSRC is bound afterwards, so every later NACK produces nothing. -/
+/-- T5 for `Close`: every later NACK produces nothing. -/
 theorem close_clears (r : Resp) (ssrc : Nat) (pairs : List (Nat × Nat)) :
     (r.close.nack ssrc pairs).2 = [] := by
-  apply resend_unbound
-  unfold Resp.close
-  rw [(clearList_bound _ _).1]
-  rfl
+  rw [nack_closed _ _ _ (close_closed r)]
+
+/-- T5 for `Close`, for good: whatever is bound, written, unbound or closed afterwards, a NACK
+produces nothing (the code's `closed` flag is never reset). -/
+theorem close_is_final (r : Resp) (sp : Specs) (ops : List Op) (ssrc : Nat) (pairs : List (Nat × Nat)) :
+    ((runOps r.close sp ops).1.nack ssrc pairs) = ((runOps r.close sp ops).1, []) :=
+  nack_closed _ _ _ (runOps_closed _ _ _ (close_closed r))
+
+/-- `Close` does not cancel or outrun a retransmission in flight: the resend goroutine held in
+the downstream `Write` is still there, and `Close` is waiting for it (it returns at `resume`). -/
+theorem close_waits_for_inflight (r : Resp) (pd : Pending) (h : r.pending = some pd) :
+    r.close.pending = some pd ∧ r.close.closeWaiting = true := by
+  refine ⟨by rw [close_pending, h], ?_⟩
+  rw [close_closeWaiting, h]; simp
+
+example : ∃ r : Resp, ∃ pd, r.pending = some pd :=
+  ⟨{ size := 1, streams := #[], bound := [], rtxNext := 0, hold := true,
+     pending := some { w := 0, held := default, rest := [] }, closed := false, closeWaiting := false }, _, rfl⟩
+
+/-- nothing is written after `Close` has returned: once the pending resend (if any) has finished —
+the latest point at which `Close` returns — no operation history makes a NACK or a resumed
+goroutine write anything. -/
+theorem nothing_after_close_returns (r : Resp) (sp : Specs) (ops : List Op) (ssrc : Nat)
+    (pairs : List (Nat × Nat)) :
+    let r3 := (runOps r.close.resume.1 sp ops).1
+    r3.nack ssrc pairs = (r3, []) ∧ r3.resume.2 = [] := by
+  intro r3
+  have hc : r.close.resume.1.closed = true := by rw [resume_closed, close_closed]
+  refine ⟨nack_closed _ _ _ (runOps_closed _ _ _ hc), ?_⟩
+  apply resume_idle
+  show (runOps r.close.resume.1 sp ops).1.pending = none
+  rw [runOps_pending, resume_pending]
 
 /-- T5 for `Close`, slots: every stream that was bound has an all-empty ring afterwards. -/
 theorem close_empties (r : Resp) (e : Nat × Nat) (he : e ∈ r.bound) (st : Stream) (b : Buf Pkt)
     (hs : r.close.streams[e.2]? = some st) (hb : st.buf = some b) (i : Nat) : slot b.slots i = none := by
   unfold Resp.close at hs
-  exact clearList_allEmpty r.bound { r with bound := [] } e.2 (Or.inl ⟨e, he, rfl⟩) st b hs hb i
+  exact clearList_allEmpty r.bound _ e.2 (Or.inl ⟨e, he, rfl⟩) st b hs hb i
 
 /-- T4 link, `Add`: for every packet `a`, "in the ring afterwards" + "released by this Add" =
 "in the ring before" + "is the new packet" — i.e. an `Add` is a sequence of the machine's `evict`
